@@ -17,6 +17,7 @@ import PMH.Model.SuperMinHash2
 import PMH.Model.SetSketch
 import PMH.Model.ChaCha
 import PMH.Model.DensMinHash
+import PMH.Model.OrdMinHash
 import Std.Data.HashMap
 /-!
 # `pmhdriver`: line protocol in front of the executable models
@@ -38,6 +39,7 @@ structure DState where
   ssk : Std.HashMap String SSK := {}
   dens64 : Std.HashMap String (Dens Float) := {}
   dens32 : Std.HashMap String (Dens Float32) := {}
+  ord : Std.HashMap String (OrdMH Float) := {}
 
 def errWord (e : Err) : String :=
   match e with
@@ -452,6 +454,22 @@ def stepDens (st : DState) : List String → DState × String
     | _, _, _ => (st, "bad-op")
   | _ => (st, "bad-op")
 
+def ordOps : OrdOps Float Xo :=
+  { nextE := exp1, nextU := fun g => g.next, offsetOf := fun u n => FY.offsetOf (unif01OfU64 u) n,
+    mkGen := fun h c sd => Xo.fromWords h c sd 0 }
+
+def stepOrd (st : DState) : List String → DState × String
+  | ["new", n, m, l, sd] => match m.toNat?, l.toNat?, u64OfHex sd with
+    | some m, some l, some sd => (match (OrdMH.new f64Max m l sd : Except Err (OrdMH Float)) with
+      | .ok s => ({ st with ord := st.ord.insert n s }, "ok") | .error e => (st, errWord e))
+    | _, _, _ => (st, "bad-op")
+  | "set" :: n :: hs => match st.ord[n]?, hs.mapM u64OfHex with
+    | some s, some hs => (match s.hashSet ordOps f64Max hs with
+      | .ok s' => ({ st with ord := st.ord.insert n s' }, dumpNats s'.indices ++ " | " ++ joinSp (s'.values.toList.map f64Hex))
+      | .error e => (st, errWord e))
+    | _, _ => (st, "bad-op")
+  | _ => (st, "bad-op")
+
 def step (st : DState) (line : String) : DState × String :=
   match (line.trimAscii.toString.splitOn " ").filter (· ≠ "") with
   | "case" :: id :: _ => (st, "case " ++ id)
@@ -467,6 +485,7 @@ def step (st : DState) (line : String) : DState × String :=
   | "smh2" :: rest => stepSmh2 st rest
   | "ssk" :: rest => stepSsk st rest
   | "dens" :: rest => stepDens st rest
+  | "ord" :: rest => stepOrd st rest
   | "pmh2" :: rest => stepPmh2 st rest
   | "rnd" :: rest => (st, stepExp rest)
   | _ => (st, "bad-op")
